@@ -8,8 +8,9 @@ from vf import execharness as H
 from vf.report import MachineryDefect, Run
 
 
-def compare(expected, got):
-    """expected: H.reference(...) tuple; got: H.run_request(...) dict -> (clause, detail) or None"""
+def compare(expected, got, arguments=True):
+    """expected: H.reference(...) tuple; got: H.run_request(...) dict -> (clause, detail) or None; arguments=False leaves the resolver-argument
+    comparison out (C05: how a custom scalar without a literal parser reads a literal is the scalar's business)"""
     kind = expected[0]
     if kind == "exception":
         if got["outcome"] != "exception":
@@ -33,11 +34,16 @@ def compare(expected, got):
     le = H.lib_errors(res)
     if le != expected[2]:
         return ("execute:one-error-per-failed-position", "errors %r; the specification's algorithm gives %r" % (le[:4], expected[2][:4]))
+    # every error names each field node of its position once (a fragment collected twice would list a location twice)
+    for e in res.errors:
+        locs = [n.loc for n in (getattr(e, "nodes", None) or []) if getattr(n, "loc", None)]
+        if len(locs) != len(set(locs)):
+            return ("execute:error-locations-are-distinct", "an error lists the same field node twice: %r" % (locs,))
     # ResolveFieldValue(objectType, objectValue, fieldName, argumentValues): every resolver is handed CoerceArgumentValues of the field
     # definition of ITS runtime object type (6.4.1), whatever was executed before it
     want = sorted(((ev[1], H._freeze(ev[2])) for ev in expected[3].trace if ev[0] == "invoke"), key=repr)
     have = sorted(((ev[1], H._freeze(ev[2])) for ev in got["log"] if ev[0] == "invoke"), key=repr)
-    if want != have:
+    if arguments and want != have:
         diff = [x for x in have if x not in want][:3]
         return ("execute:resolvers-receive-the-coerced-arguments-of-their-own-field-definition",
                 "resolver invocations (path, arguments) %r; the specification's algorithm gives %r" % (diff, [x for x in want if x not in have][:3]))
